@@ -7,7 +7,7 @@ from checklib import Scenario
 RULE = ("(a) option strings built from documented items in every order, repeated, with empty list values, plus unknown / "
         "misspelt / empty items: return code and the resulting option fields of the object, expected values computed "
         "independently (last occurrence wins; any undocumented item -> ECONF_OPTION_NOT_FOUND); (b) class-N files with keys "
-        "defined several times incl. empty definitions and multi-line definitions, read with and without JOIN_SAME_ENTRIES: "
+        "defined several times incl. empty definitions and multi-line definitions, in sections that are re-opened with other sections in between, read with and without JOIN_SAME_ENTRIES: "
         "the non-empty value lines must be those of all definitions since the last empty one (independent Python computation) "
         "resp. the first definition; (c) PYTHON_STYLE files (indented lines containing delimiters and comment characters, "
         "comment characters after values): model = implementation and the independently computed value; distinct by scenario")
@@ -40,7 +40,7 @@ def value_lines(v):
     return [l.strip(b" \t\n\v\f\r") for l in v.split(b"\n") if l.strip(b" \t\n\v\f\r")]
 
 def gen(rng, tier):
-    n = 250 if tier == "quick" else 20000
+    n = 750 if tier == "quick" else 20000
     out = []
     for _ in range(n):
         items = [rand_item(rng)[0] for _ in range(rng.randrange(1, 6))]
@@ -55,9 +55,10 @@ def gen(rng, tier):
         # join: repeated keys
         keys = [b"k", b"k", b"k", b"other"]
         lines, defs, cur = [], {}, None
-        for _ in range(rng.randrange(2, 9)):
+        dense = rng.random() < 0.5        # half of the files re-open sections often: definitions of one key far apart
+        for _ in range(rng.randrange(2, 14 if dense else 9)):
             r = rng.random()
-            if r < 0.15:
+            if r < (0.35 if dense else 0.15):
                 g = rng.choice([b"A", b"B"]); lines.append(b"[" + g + b"]"); cur = g; continue
             k = rng.choice(keys)
             r = rng.random()
